@@ -102,6 +102,9 @@ let sop_of_string s =
   | 's' -> Sink.RawSeek
   | 'r' -> Sink.RawWrite (n ())
   | 'F' -> Sink.FinalFlush
+  | 'G' -> Sink.FlushReturned
+  | 'd' -> Sink.RawRead (n ())
+  | 'a' -> Sink.RawReadAt (n ())
   | _ -> failwith "bad sink op"
 
 let () =
@@ -157,7 +160,9 @@ let () =
       Printf.printf "%s %s\n" id (err_letter (Some c))
     | id :: "S" :: ops ->
       let calls = Sink.sink_calls (Stdlib.List.map sop_of_string ops) in
-      let strs = Stdlib.List.map (fun c -> match c with Sink.CWrite n -> "W" ^ string_of_n n | Sink.CSeek -> "S") calls in
+      let strs = Stdlib.List.map (fun c -> match c with
+        | Sink.CWrite n -> "W" ^ string_of_n n | Sink.CSeek -> "S"
+        | Sink.CRead n -> "R" ^ string_of_n n | Sink.CReadAt n -> "A" ^ string_of_n n) calls in
       Printf.printf "%s %s\n" id (if strs = [] then "-" else Stdlib.String.concat " " strs)
     | id :: "K" :: fm :: ops ->
       let vs = Sink.surface_verdicts (Stdlib.List.map sop_of_string ops) (fmode_of fm) in
